@@ -79,3 +79,58 @@ Proof.
   - intros H. destruct (H (Some 1) None 0 false) as [_ Ho]. cbn in Ho. discriminate.
   - cbn. discriminate.
 Qed.
+
+(* ---- restarted node ------------------------------------------------------------------------------------------ *)
+(* restarts at arbitrary block boundaries are invisible when the handler is free of node-local state: the restarted
+   node is, at each restart, a node with memory [l0] on the store the running node holds *)
+Theorem local_free_restarts_invisible {L S B O : Type} (h : L -> S -> B -> L * S * O) :
+  local_free h -> forall bs l0 l s, run_node_restarting h l0 l s bs = run_node h l s (map snd bs).
+Proof.
+  intros Hf bs. induction bs as [|[r b] t IH]; intros l0 l s; [reflexivity|].
+  cbn [run_node_restarting run_node map snd].
+  destruct (Hf (if r then l0 else l) l s b) as [Hs Ho].
+  destruct (h (if r then l0 else l) s b) as [[l1 s1] o1]. destruct (h l s b) as [[l2 s2] o2].
+  cbn [fst snd] in Hs, Ho. subst s2 o2.
+  rewrite (IH l0 l1 s1). rewrite (local_free_nodes_agree h Hf (map snd t) l1 l2 s1). reflexivity.
+Qed.
+
+(* the cached read again: restarted after the rolled-back write, the node answers from the store *)
+Example cached_handler_restart_visible :
+  run_node_restarting cached_handler None None 0 [(false, true); (true, false)]
+  <> run_node cached_handler None 0 [true; false].
+Proof. cbn. discriminate. Qed.
+
+Lemma map_eq_nth {A B} (f : A -> B) (a b : list A) : map f a = map f b ->
+  List.length a = List.length b /\ forall n d, f (nth n a d) = f (nth n b d).
+Proof.
+  revert b. induction a as [|x a IH]; destruct b as [|y b]; cbn [map]; intros E; try discriminate.
+  - split; [reflexivity|]. intros n d. destruct n; reflexivity.
+  - injection E as E1 E2. destruct (IH b E2) as [Hl Hn]. split; [cbn [List.length]; f_equal; exact Hl|].
+    intros n d. destruct n as [|n]; cbn [nth]; [exact E1 | apply Hn].
+Qed.
+
+(* a check that passes: the two executions processed the same number of blocks and, after every block, recorded the
+   same store digest, event digest and operation results; same projected observations; same failure status *)
+Lemma c01_restart_check_sound hs rs k r obs h n e :
+  c01_restart_check (RestartCase hs rs k r obs h n e) = [] ->
+  List.length k = List.length r /\
+  (forall i d, obs_stores (nth i k d) = obs_stores (nth i r d) /\ obs_events (nth i k d) = obs_events (nth i r d)
+               /\ obs_results (nth i k d) = obs_results (nth i r d)) /\
+  obs = true /\ h = true.
+Proof.
+  unfold c01_restart_check. intros H.
+  apply app_nil_both in H. destruct H as [H1 H]. apply app_nil_both in H. destruct H as [H2 H].
+  apply app_nil_both in H. destruct H as [H3 H]. apply app_nil_both in H. destruct H as [H4 H5].
+  apply spec_if_nil in H1, H2, H3, H4, H5.
+  assert (Hs : forall a b, String.eqb a b = true -> a = b) by (intros a b E; apply String.eqb_eq; exact E).
+  apply (list_eqb_eq String.eqb Hs) in H1, H2, H3.
+  destruct (map_eq_nth _ _ _ H1) as [Hl N1]. destruct (map_eq_nth _ _ _ H2) as [_ N2]. destruct (map_eq_nth _ _ _ H3) as [_ N3].
+  split; [exact Hl|]. split; [|split; assumption].
+  intros i d. split; [apply N1 | split; [apply N2 | apply N3]].
+Qed.
+
+(* non-vacuity: a differing store digest in the second block is reported *)
+Example c01_restart_check_detects :
+  c01_restart_check (RestartCase 1 [1] [("a", "e", "o"); ("b", "e", "o")] [("a", "e", "o"); ("c", "e", "o")] true true 0 0)%string
+  = [Spec "a node restarted at a block boundary diverges from a node that kept running: the module stores differ after some block"].
+Proof. vm_compute. reflexivity. Qed.
